@@ -1710,6 +1710,9 @@ func (m *Machine) recoverToErr(handler *handler, r recoveryData) {
 	// dont double handle an exception (no nesting)
 	mut := t.Mutation
 	if mut.IsCalled(iException) {
+		// the handler loop died with the panic, restart it
+		go m.handlerLoop()
+
 		return
 	}
 
